@@ -16,6 +16,9 @@ package props
 //   F=<feats>   ';' separated  featureId:pileIndex:mateId:mateOK  for every feature object,
 //               pileIndex = position in P of the *Pile returned by Location() (-1: not a pile of P),
 //               mateId = id of Mate() (-1 unknown), mateOK = Mate().Mate()==f && same Pair
+//   K=<ids>     '.' separated ids of the accepted pairs for which the filter of this call, asked
+//               again AFTER Piles returned (every feature then sits in its final pile), says true
+//               ("-" = none, "n" = nil filter)
 
 import (
 	"fmt"
@@ -71,6 +74,36 @@ func c16Contig(l int) pals.Contig {
 	return c
 }
 
+// c16Filter builds the PairFilter named by one filter token ("n" gives nil).
+func c16Filter(fs string) pals.PairFilter {
+	if fs == "n" {
+		return nil
+	}
+	switch fs[0] {
+	case '0', '1':
+		mask := fs
+		return func(q *pals.Pair) bool { return q.Score < len(mask) && mask[q.Score] == '1' }
+	case 'Q':
+		return func(q *pals.Pair) bool { return q.A.Loc != q.B.Loc }
+	}
+	k := hx.Atoi(fs[1:])
+	switch fs[0] {
+	case 'L':
+		return func(q *pals.Pair) bool { return q.A.Loc.Len() >= k && q.B.Loc.Len() >= k }
+	case 'l':
+		return func(q *pals.Pair) bool { return q.A.Loc.Len() >= k || q.B.Loc.Len() >= k }
+	case 'S':
+		return func(q *pals.Pair) bool { return q.A.Loc.Start() >= k && q.B.Loc.Start() >= k }
+	case 'E':
+		return func(q *pals.Pair) bool { return q.A.Loc.End() <= k || q.B.Loc.End() <= k }
+	case 'C':
+		return func(q *pals.Pair) bool {
+			return q.A.Len()*100 >= q.A.Loc.Len()*k || q.B.Len()*100 >= q.B.Loc.Len()*k
+		}
+	}
+	panic("c16: bad filter " + fs)
+}
+
 func c16Exec(input string) string {
 	f := hx.Fields(input)
 	if len(f) != 3 || f[0] != "pl" {
@@ -80,6 +113,7 @@ func c16Exec(input string) string {
 	objs := map[int]*pals.Pair{}
 	featID := map[*pals.Feature]int{}
 	var order []int // pair ids in order of first appearance
+	accepted := map[int]bool{}
 	p := pals.NewPiler(0)
 	var sb strings.Builder
 	sb.WriteString("A=")
@@ -102,6 +136,7 @@ func c16Exec(input string) string {
 			sb.WriteByte('0')
 		} else {
 			sb.WriteByte('1')
+			accepted[in.id] = true
 		}
 	}
 	if len(pairs) == 0 {
@@ -115,11 +150,7 @@ func c16Exec(input string) string {
 		return hx.Atoi(string(c)[1:])
 	}
 	for _, fs := range strings.Split(f[2], "/") {
-		var filter pals.PairFilter
-		if fs != "n" {
-			mask := fs
-			filter = func(q *pals.Pair) bool { return q.Score < len(mask) && mask[q.Score] == '1' }
-		}
+		filter := c16Filter(fs)
 		piles := p.Piles(filter)
 		type row struct {
 			loc, from, to int
@@ -206,6 +237,20 @@ func c16Exec(input string) string {
 				fmt.Fprintf(&sb, "%d:%d:%d:%s", 2*id+k, pi, mid, hx.B(mok))
 			}
 		}
+		// the filter asked again now that the call has returned
+		sb.WriteString(" K=")
+		if filter == nil {
+			sb.WriteByte('n')
+		} else {
+			var ids []int
+			for _, id := range order {
+				if accepted[id] && filter(objs[id]) {
+					ids = append(ids, id)
+				}
+			}
+			sort.Ints(ids)
+			sb.WriteString(dots(ids))
+		}
 	}
 	return sb.String()
 }
@@ -258,7 +303,51 @@ func c16Related(g *hx.Gen, iv c16Iv, line int) c16Iv {
 	}
 }
 
-func c16Filters(g *hx.Gen, npairs int) string {
+// a filter that inspects the piles of the pair's images; thresholds are taken near the lengths
+// and end points of the features so that both answers occur
+func c16PileFilter(g *hx.Gen, ps []c16Pair) string {
+	var ref c16Pair
+	if len(ps) > 0 {
+		ref = ps[g.Intn(len(ps))]
+	}
+	d := g.Pick(-1, 0, 0, 1, 1, 2, 3, 7)
+	switch g.Intn(10) {
+	case 0, 1:
+		return fmt.Sprintf("L%d", g.Pick(ref.ea-ref.sa, ref.eb-ref.sb, 1, 2)+d)
+	case 2:
+		return fmt.Sprintf("l%d", g.Pick(ref.ea-ref.sa, ref.eb-ref.sb, 1, 2)+d)
+	case 3:
+		return fmt.Sprintf("S%d", g.Pick(ref.sa, ref.sb, 1)+d-1)
+	case 4:
+		return fmt.Sprintf("E%d", g.Pick(ref.ea, ref.eb)+d)
+	case 5:
+		return "Q"
+	default: // the coverage filter of the repository's TestPiler (epsilon 0.95)
+		return fmt.Sprintf("C%d", g.Pick(95, 95, 100, 50, 80, 34, 101))
+	}
+}
+
+func c16Filters(g *hx.Gen, ps []c16Pair) string {
+	npairs := c16MaxID(ps) + 1
+	if g.Chance(0.5) {
+		pf := func() string { return c16PileFilter(g, ps) }
+		switch g.Intn(6) {
+		case 0, 1: // on the first call, when the features are located for the first time
+			return pf()
+		case 2:
+			return pf() + "/n/" + pf()
+		case 3:
+			return pf() + "/" + pf()
+		case 4: // on a later call only
+			return "n/" + pf()
+		default:
+			return c16MaskFilters(g, npairs) + "/" + pf()
+		}
+	}
+	return c16MaskFilters(g, npairs)
+}
+
+func c16MaskFilters(g *hx.Gen, npairs int) string {
 	mask := func() string {
 		b := make([]byte, npairs)
 		p := g.Float64()
@@ -376,6 +465,9 @@ func c16Gen(g *hx.Gen) {
 			all = append(all, c16Iv{0, s, e})
 		}
 	}
+	// every such history also with a pile-inspecting filter on the first Piles call
+	pfs := []string{"L2", "C100", "Q", "S1", "E2", "l3", "L1", "C51"}
+	npf := 0
 	for _, a := range all {
 		for _, b := range all {
 			for _, c := range all {
@@ -385,6 +477,8 @@ func c16Gen(g *hx.Gen) {
 					}
 					ps := []c16Pair{{0, 0, a.s, a.e, 0, b.s, b.e}, {1, 0, c.s, c.e, 0, d.s, d.e}}
 					g.Casef("pl %s n", c16FmtPairs(ps))
+					g.Casef("pl %s %s", c16FmtPairs(ps), pfs[npf%len(pfs)])
+					npf++
 					// the reverse order is the same multiset with (a,b) and (c,d) swapped: enumerated too
 				}
 			}
@@ -398,7 +492,7 @@ func c16Gen(g *hx.Gen) {
 			n = g.Scale(5, 6)
 		}
 		ps := c16Multiset(g, n, g.Pick(1, 1, 2, 3), g.Pick(6, 12, 12, 30))
-		filters := c16Filters(g, c16MaxID(ps)+1)
+		filters := c16Filters(g, ps)
 		c16Permutations(len(ps), func(perm []int) bool {
 			c16Emit(g, ps, perm, filters)
 			return !g.Done()
@@ -419,7 +513,7 @@ func c16Gen(g *hx.Gen) {
 			}
 		}
 		for k := 0; k < 3; k++ {
-			c16Emit(g, ps, g.Perm(len(ps)), c16Filters(g, c16MaxID(ps)+1))
+			c16Emit(g, ps, g.Perm(len(ps)), c16Filters(g, ps))
 		}
 	}
 }
